@@ -8,6 +8,7 @@ from props import common as K
 
 META = {
     "level": "other",
+    "technique": "static analysis of type-checked MIR (rustc_private driver): MIR must-pass-through graph cuts, guard polarity, loop-form rule on the coverage loops, provenance slicing; abstract interpretation of the SET-OF header emitter",
     "explanation": "Must-pass-through, guard-polarity, loop-form and provenance rules over the MIR of the signed-object "
                    "validation entry points (SignedObject, Roa, Aspa, Manifest): no success path avoids the sid guard, the "
                    "digest guard, signature verification over encode_verify(signed_attrs) under the embedded EE key, EE "
